@@ -13,16 +13,19 @@
       - fragments that are routed to 'deliver' have their actions cleared by the reassembly step (no
         report of any kind for the fragment itself);
       - a bundle matching no route is dropped silently (no report);
-      - the fragment-creation TX step always raises for a bundle whose payload block still carries the
-        decoded scapy payload (everything that came from the wire, and every status report): the bundle
-        is then sent whole.  [b_cached = false] is the latent path (fragments sent, then "no sender" is
-        raised and [_do_fwd] records delete / NO_ROUTE).
+      - a bundle larger than the route MTU is handed to the CL as fragments (the fragment-creation TX
+        step takes over the transmission and [send_bundle] returns quietly, so [_do_fwd] records
+        'forward'); when fragmentation is infeasible the step clears the route and raises, [send_bundle]
+        raises "no sender" and [_do_fwd] records delete / NO_ROUTE.
 
     Abstractions (inputs of the model, decided elsewhere):
       [b_crc_ok]  result of [check_all_crc] (C08);   [b_sec]  outcome of the BPSec verification steps when
       the bundle is to be delivered (C12): [Some reason] = failure;   [b_prep]  whether the block
       insertions of [_do_fwd] raise (C11; block numbers handed out once stick to the class-level
-      [overloaded_fields] dict);   [b_size] encoded size offered to the fragment step (C05);
+      [overloaded_fields] dict);
+      [b_size] encoded size offered to the fragment step and [b_fragfeas] whether every fragment fits the
+      route MTU (C05's budget);  [t_rpt] how a status report fares against the route MTU (0 sent whole,
+      1 infeasible, 2 fragmented);
       [matches]  Python [re.match] of a route pattern on an EID (Section variable);
       EIDs are numbers, 0 = dtn:none;  wall clock frozen ([a_now]), [a_tsn] = calls made to the agent's
       [Timestamper] so far (with a frozen clock the k-th call returns sequence number k-1). *)
@@ -78,7 +81,7 @@ Record bundle := mkBundle {
   b_sec : option N;
   b_prep : N;                   (* 0 none, 1 previous-node insertion raises, 2 bundle-age insertion raises *)
   b_size : N;
-  b_cached : bool
+  b_fragfeas : bool
 }.
 
 Definition is_frag (b : bundle) : bool := match b_frag b with Some _ => true | None => false end.
@@ -105,7 +108,7 @@ Definition mem (x : action) (l : list action) : bool := existsb (action_eqb x) l
 Definition add (x : action) (l : list action) : list action := if mem x l then l else l ++ [x].
 Definition remove (x : action) (l : list action) : list action := filter (fun y => negb (action_eqb x y)) l.
 
-Record txroute := mkTx { t_pat : N; t_cl : bool; t_mtu : option N }.
+Record txroute := mkTx { t_pat : N; t_cl : bool; t_mtu : option N; t_rpt : N }.
 
 (** Reassembly state of bp/app/fragment.py, keyed by the first three identity components. *)
 Record reasm := mkReasm {
@@ -136,7 +139,7 @@ Definition tick (a : agent) : agent :=
 
 Definition set_ts (b : bundle) (t q : N) : bundle :=
   mkBundle (b_src b) (b_dst b) (b_rpt b) t q (b_frag b) (b_flags b) (b_paylen b) (b_crc_ok b) (b_sec b)
-           (b_prep b) (b_size b) (b_cached b).
+           (b_prep b) (b_size b) (b_fragfeas b).
 
 (** The status report of RFC 9171 6.1.1 as built by [create_report] and completed by [_apply_primary]. *)
 Record report := mkReport {
@@ -191,13 +194,14 @@ Definition create_report (node : eid) (ts : N * N) (b : bundle) (acts : list act
 Inductive event :=
 | EvDeliver (subject : bundle)
 | EvTx (subject : bundle) (sent : bundle) (route : nat)    (* whole bundle handed to the CL of tx route [route] *)
-| EvFrags (subject : bundle) (route : nat)                 (* latent: fragments queued for transmission *)
+| EvFrags (subject : bundle) (sent : bundle) (route : nat)  (* the bundle handed to the CL as fragments *)
 | EvReport (subject : bundle) (r : report) (route : nat)   (* status report handed to the CL *)
+| EvReportFrags (subject : bundle) (r : report) (route : nat)  (* status report handed to the CL as fragments *)
 | EvSendFail (subject : bundle) (is_report : bool).        (* [send_bundle] raised: nothing reaches a CL *)
 
 Definition ev_subject (e : event) : bundle :=
   match e with
-  | EvDeliver b | EvTx b _ _ | EvFrags b _ | EvReport b _ _ | EvSendFail b _ => b
+  | EvDeliver b | EvTx b _ _ | EvFrags b _ _ | EvReport b _ _ | EvReportFrags b _ _ | EvSendFail b _ => b
   end.
 
 Fixpoint find_idx {A : Type} (f : A -> bool) (l : list A) (k : nat) : option (nat * A) :=
@@ -225,7 +229,7 @@ Definition frag_total (b : bundle) : N := match b_frag b with Some (_, t) => t |
 (** The bundle synthesised from the first fragment when reassembly completes. *)
 Definition reassembled (f : bundle) (total : N) : bundle :=
   mkBundle (b_src f) (b_dst f) (b_rpt f) (b_time f) (b_seq f) None (b_flags f) total true (b_sec f)
-           (b_prep f) (b_size f) (b_cached f).
+           (b_prep f) (b_size f) (b_fragfeas f).
 
 Definition ra_inject (r : reasm) (b : bundle) : reasm :=
   mkReasm (ra_src r) (ra_time r) (ra_seq r) (ra_total r)
@@ -273,7 +277,7 @@ Section WithMatch.
          end.
 
   (** TX chain as far as it decides what reaches the CL. *)
-  Inductive sendres := SentWhole (k : nat) | SentFrags (k : nat) | SendRaise.
+  Inductive sendres := SentWhole (k : nat) | SentFrags (k : nat) (cl : bool) | SendRaise.
 
   Definition should_fragment (r : txroute) (size : N) (nofrag isfrag : bool) : bool :=
     match t_mtu r with
@@ -281,12 +285,26 @@ Section WithMatch.
     | None => false
     end.
 
-  Definition send_path (a : agent) (dst : eid) (size : N) (nofrag isfrag cached : bool) : sendres :=
+  (** [send_bundle] of a data bundle.  When the fragment step takes over, each fragment is sent through
+      [send_bundle] again (same destination, hence same route; a fragment is never fragmented): it
+      reaches the CL iff the route's CL is attached ([cl]). *)
+  Definition send_path (a : agent) (dst : eid) (size : N) (nofrag isfrag feas : bool) : sendres :=
     match find_idx (fun r => matches (t_pat r) dst) (a_tx a) 0 with
     | None => SendRaise
     | Some (k, r) =>
-      if should_fragment r size nofrag isfrag && negb cached then SentFrags k
+      if should_fragment r size nofrag isfrag then
+        if feas then SentFrags k (t_cl r) else SendRaise
       else if t_cl r then SentWhole k else SendRaise
+    end.
+
+  (** [send_bundle] of a status report. *)
+  Definition send_report_path (a : agent) (dst : eid) : sendres :=
+    match find_idx (fun r => matches (t_pat r) dst) (a_tx a) 0 with
+    | None => SendRaise
+    | Some (k, r) =>
+      if t_rpt r =? 0 then (if t_cl r then SentWhole k else SendRaise)
+      else if t_rpt r =? 1 then SendRaise
+      else SentFrags k (t_cl r)
     end.
 
   (** [_finish_bundle]: build the report; its deferred [send_bundle] stamps it and looks up a route. *)
@@ -296,8 +314,9 @@ Section WithMatch.
     | None => (a, [])
     | Some r =>
       let a1 := tick a in
-      match send_path a1 (r_dst r) 0 false false true with
+      match send_report_path a1 (r_dst r) with
       | SentWhole k => (a1, [EvReport subject r k])
+      | SentFrags k true => (a1, [EvReportFrags subject r k])
       | _ => (a1, [EvSendFail subject true])
       end
     end.
@@ -317,9 +336,9 @@ Section WithMatch.
         (* send_bundle: _apply_primary replaces a zero creation time *)
         let a2 := if b_time b =? 0 then tick a1 else a1 in
         let b' := if b_time b =? 0 then set_ts b (a_now a1) (a_tsn a1) else b in
-        match send_path a2 (b_dst b') (b_size b') (has_flag (b_flags b') FLAG_NO_FRAGMENT) (is_frag b') (b_cached b') with
+        match send_path a2 (b_dst b') (b_size b') (has_flag (b_flags b') FLAG_NO_FRAGMENT) (is_frag b') (b_fragfeas b') with
         | SentWhole k => (a2, b', add AFwd acts, reason, [EvTx b b' k])
-        | SentFrags k => (a2, b', add ADel acts, Some fwd_fail_reason, [EvFrags b k; EvSendFail b false])
+        | SentFrags k cl => (a2, b', add AFwd acts, reason, [if cl then EvFrags b b' k else EvSendFail b false])
         | SendRaise => (a2, b', add ADel acts, Some fwd_fail_reason, [EvSendFail b false])
         end.
 
@@ -396,9 +415,9 @@ Section WithMatch.
   Definition has_deliver (evs : list event) : bool :=
     existsb (fun e => match e with EvDeliver _ => true | _ => false end) evs.
   Definition has_tx (evs : list event) : bool :=
-    existsb (fun e => match e with EvTx _ _ _ | EvFrags _ _ => true | _ => false end) evs.
+    existsb (fun e => match e with EvTx _ _ _ | EvFrags _ _ _ => true | _ => false end) evs.
   Definition reports_of (evs : list event) : list report :=
-    flat_map (fun e => match e with EvReport _ r _ => [r] | _ => [] end) evs.
+    flat_map (fun e => match e with EvReport _ r _ | EvReportFrags _ r _ => [r] | _ => [] end) evs.
 
   (** What happened to the processed bundle, read off the events (independent of [actions]). *)
   Definition occurred (evs : list event) (s : action) : bool :=
@@ -421,11 +440,12 @@ Section WithMatch.
     match e with
     | EvDeliver b => [0] ++ render_ident b ++ [b_dst b]
     | EvTx _ s k => [1] ++ render_ident s ++ [b_dst s; N.of_nat k]
-    | EvFrags b k => [2] ++ render_ident b ++ [b_dst b; N.of_nat k]
+    | EvFrags _ s k => [2] ++ render_ident s ++ [b_dst s; N.of_nat k]
     | EvReport _ r k =>
       [3; r_dst r; r_src r; r_rpt r; r_flags r; r_crc r; r_time r; r_seq r]
         ++ map nb (r_status r)
         ++ [nb (r_with_time r); r_reason r; r_subj_src r; r_subj_time r; r_subj_seq r; N.of_nat k]
+    | EvReportFrags _ r k => [5; r_dst r; N.of_nat k]
     | EvSendFail _ isr => [4; nb isr]
     end.
 
